@@ -235,12 +235,106 @@ func c02Coincidence(c *Ctx, cfg wcfg, i int64, g *prng.Rng) {
 	}
 }
 
+// c02Reuse: one Writer emits three frames (Reset onto a new sink in between): some content whose
+// length is not a multiple of 16, then an empty frame, then a few bytes.  Each sink must hold one
+// conforming frame for what was written into it (C09) that reads back (C02): nothing of an earlier
+// frame (checksum state, buffers, sizes) may show in a later one.
+func c02Reuse(c *Ctx, cfg wcfg, i int64, g *prng.Rng, prop string) {
+	bm := cfg.blockMax()
+	first := mixData(g, minInt(bm, 70000)+1+g.N(14))
+	if len(first)%16 == 0 {
+		first = first[:len(first)-3]
+	}
+	inputs := [][]byte{first, nil, g.Bytes(1 + g.N(40))}
+	if i%2 == 1 {
+		inputs[1], inputs[2] = inputs[2], inputs[1]
+	}
+	sinks := []*gen.Sink{{Budget: 4000}, {Budget: 4000}, {Budget: 4000}}
+	failed := ""
+	if c.Guard("Writer.reuse", func() {
+		w := lz4.NewWriter(sinks[0])
+		if err := w.Apply(cfg.opts()...); err != nil {
+			failed = "Apply: " + err.Error()
+			return
+		}
+		for k, in := range inputs {
+			if k > 0 {
+				w.Reset(sinks[k])
+			}
+			if len(in) > 0 || (i+int64(k))%2 == 0 {
+				if _, err := w.Write(in); err != nil {
+					failed = fmt.Sprintf("Write (frame %d): %v", k+1, err)
+					return
+				}
+			}
+			if (i/2+int64(k))%3 == 0 {
+				if err := w.Flush(); err != nil {
+					failed = fmt.Sprintf("Flush (frame %d): %v", k+1, err)
+					return
+				}
+			}
+			if err := w.Close(); err != nil {
+				failed = fmt.Sprintf("Close (frame %d): %v", k+1, err)
+				return
+			}
+		}
+	}) {
+		return
+	}
+	if failed != "" {
+		c.ViolationAs("C02", "writer-call-failed/reuse", "a call on a reused Writer failed on a healthy sink: "+failed+" ["+cfg.String()+"]", nil)
+		return
+	}
+	c.Count("reused_writer_frames", int64(len(inputs)))
+	for k, in := range inputs {
+		frame := sinks[k].Buf
+		det := map[string]interface{}{"config": cfg.String(), "frame_no": k + 1, "input_lens": []int{len(inputs[0]), len(inputs[1]), len(inputs[2])}, "frame_len": len(frame), "frame_head": hexs(head(frame, 64))}
+		if prop == "C09" {
+			f, err := ref.ParseFrame(frame, ref.ParseOpts{EnforceBlockMax: true})
+			c.Count("frames_parsed", 1)
+			if err != nil {
+				fe, _ := err.(*ref.FrameError)
+				kind := "other"
+				if fe != nil {
+					kind = fe.Kind.String()
+				}
+				c.Violation("not-a-valid-frame/"+kind+"/reused-writer/"+sigFlags(cfg), fmt.Sprintf("frame %d of a reused Writer (%d bytes written into it) is rejected by the independent parser: %v [%s]", k+1, len(in), err, cfg), det)
+				continue
+			}
+			for _, b := range ref.CheckConformance(f, cfg.refcfg(false), in, len(frame)) {
+				key := "nonconforming/" + b[0] + "/reused-writer/" + sigFlags(cfg)
+				if b[0] == "legacy-raw-block" {
+					key = "nonconforming/legacy-raw-block"
+				}
+				c.Violation(key, fmt.Sprintf("frame %d of a reused Writer: %s [%s]", k+1, b[1], cfg), det)
+			}
+			c.Cell(cfg.cell() + "/reused-writer/frame" + fmt.Sprint(k+1))
+			continue
+		}
+		for _, rc := range []int{1, 4} {
+			rr := readStream(c, frame, rc, rdSmall, bm, g, gen.ReadPlain)
+			c.Count("streams_read", 1)
+			if rr.panicky {
+				continue
+			}
+			if rr.err != nil {
+				c.Violation("decode-error/"+errClass(rr.err)+"/"+sigFlags(cfg)+"/reused-writer", fmt.Sprintf("Reader(conc %d) fails on frame %d of a reused Writer: %v [%s]", rc, k+1, rr.err, cfg), det)
+			} else if !bytes.Equal(rr.out, in) {
+				c.Violation("content-mismatch/"+sigFlags(cfg)+"/reused-writer", fmt.Sprintf("Reader(conc %d) returns %d bytes for frame %d of a reused Writer, %d were written [%s]", rc, len(rr.out), k+1, len(in), cfg), det)
+			} else {
+				c.Cell(cfg.cell() + "/reused-writer/frame" + fmt.Sprint(k+1) + "/rconc" + fmt.Sprint(rc))
+			}
+		}
+	}
+}
+
 func c02Case(c *Ctx, i int64, prop string) {
 	cfg := cfgFromIndex(i)
 	g := c.Rng(i)
 	if prop == "C02" {
 		c02Coincidence(c, cfg, i, c.Rng(i, 0xC01C))
 	}
+	c02Reuse(c, cfg, i, c.Rng(i, 0xC02E), prop)
 	inputs := c02Inputs(c, cfg, i, g)
 	thorough := c.Tier == "thorough"
 	for ii, in := range inputs {
